@@ -76,6 +76,28 @@ def alias_case(rng, i):
     return p.case()
 
 
+def identity_handle_case(rng, i):
+    """the composer's built-in handles as operands: Composer::IDENTITY = (#0, #1) as a point, #0 / #1 as bit or scalar"""
+    p = PProg(); p.tags = ["constant-handle-operand"]
+    ID = ("#0", "#1")
+    P = random_subgroup_point(rng)
+    a, _ = p.pt(ext_of(P))
+    k = i % 12
+    if k == 0: p.add(ID, a); p.tags.append("add IDENTITY p")
+    elif k == 1: p.add(a, ID); p.tags.append("add p IDENTITY")
+    elif k == 2: p.add(ID, a, "sub"); p.tags.append("sub IDENTITY p")
+    elif k == 3: p.add(a, ID, "sub"); p.tags.append("sub p IDENTITY")
+    elif k == 4: p.add(ID, ID); p.tags.append("add IDENTITY IDENTITY")
+    elif k == 5: p.neg(ID); p.tags.append("neg IDENTITY")
+    elif k == 6: p.selid(rng.choice(["#0", "#1"]), a); p.tags.append("select_identity const-bit p")
+    elif k == 7: p.selid(p.w(rng.below(2)), ID); p.tags.append("select_identity bit IDENTITY")
+    elif k == 8: p.selpt(rng.choice(["#0", "#1"]), a, ID); p.tags.append("select_point const-bit p IDENTITY")
+    elif k == 9: p.selpt(p.w(rng.below(2)), ID, a); p.tags.append("select_point bit IDENTITY p")
+    elif k == 10: p.mulpt(rng.choice(["#0", "#1"]), a); p.tags.append("mul_point const-scalar p")
+    else: p.mulpt(p.w(rng.choice([0, 1, 5, rng.fe() % (1 << 252)])), ID); p.tags.append("mul_point s IDENTITY")
+    return p.case()
+
+
 def pole_case(rng, i):
     """raw (unvalidated) addends on which the addition law has a pole: d*x1*x2*y1*y2 = +1 or -1"""
     p = PProg(); p.tags = ["pole", "pole=%s" % ("+1" if i % 2 == 0 else "-1")]
@@ -108,6 +130,7 @@ def run(ctx, broken):
     cs += [mul_case(rng) for _ in range(n_mul)]
     cs += [alias_case(rng, i) for i in range(16 if ctx.tier == "quick" else 160)]
     cs += [pole_case(rng, i) for i in range(8 if ctx.tier == "quick" else 80)]
+    cs += [identity_handle_case(rng, i) for i in range(24 if ctx.tier == "quick" else 120)]
     from props.c05 import cancel_cases
     cs += cancel_cases(rng, ("var",), 1 if ctx.tier == "quick" else 8)
     r.run(cs)
